@@ -212,6 +212,14 @@ open Firefly.Gen.Pmm
 /-- the memory map is sorted and non-overlapping -/
 def SortedMap (m : List Region) : Prop := m.Pairwise fun a c => a.addr + a.len ≤ c.addr
 
+/-- the memory map's regions do not overlap, listed in any order (what the bitmap allocator needs;
+the early allocator's ascending-order claims need `SortedMap`) -/
+def DisjointMap (m : List Region) : Prop :=
+  m.Pairwise fun a c => a.addr + a.len ≤ c.addr ∨ c.addr + c.len ≤ a.addr
+
+theorem SortedMap.disjoint {m : List Region} (h : SortedMap m) : DisjointMap m :=
+  List.Pairwise.imp (fun h => Or.inl h) h
+
 /-- the kernel image `[ksA, keA)` has a page-aligned start and lies inside one available region -/
 structure KernelPlaced (m : List Region) (ksA keA : Nat) : Prop where
   aligned : ksA % pageSize = 0
